@@ -170,4 +170,19 @@ theorem C05_exit_only_intersection_difference (op : Op) (rb sx : Rat) (p : Pt) (
 
 example : exitsAt .intersection 1 5 ⟨2, 0⟩ = true ∧ exitsAt .difference 1 5 ⟨2, 0⟩ = false := by decide +kernel
 
+/-- **C05 / C09, the whole loop, all four operations: every sweep is the common sweep cut off at its exit
+    test.**  `sweepLoopCut` is the loop of `Union` — which never exits early — stopped at the first popped
+    event on which a given test fires (that event is recorded, nothing else happens).  For every operation,
+    every queue, every arithmetic and budget, the loop of `subdivide` under that operation fails or ends
+    exactly as the `Union` loop cut at the operation's own exit test (`exitsAt`: never for union and xor,
+    behind the smaller right bound for intersection, behind the subject's for difference), with the same
+    queue, sweep line, `sorted_events`, counts, and the same arena up to `result_transition` /
+    `prev_in_result`.  So the four sweeps of one operand pair build one subdivision; intersection and
+    difference see a prefix of it, and the early termination changes nothing before the cut. -/
+theorem C05_sweep_is_common_sweep_cut (ar : Arith) (cfg : Cfg) (op : Op) (fq : FQ) (sb cb : BBox) :
+    exMap sSw (sweepLoop ar cfg op (rmin sb.maxx cb.maxx) sb.maxx (cfg.budget + 1) { arena := fq.arena, heap := fq.heap })
+      = exMap sSw (sweepLoopCut ar cfg (exitsAt op (rmin sb.maxx cb.maxx) sb.maxx) (rmin sb.maxx cb.maxx) sb.maxx
+          (cfg.budget + 1) { arena := fq.arena, heap := fq.heap }) :=
+  sweepLoop_is_cut_union ar cfg op _ _ _ _ _ rfl
+
 end Gbo.Props
